@@ -268,6 +268,24 @@ def run_cli(shard, ctx, origin_ref):
             if m == 1 and i % 2 == 1:
                 fault_leg(ctx, cr, rng)
                 continue
+            if m == 1 and i % 4 == 0:
+                # the directory already holds AGP files of an earlier, different curation under the same names
+                # (an `-o out.agp` run): the second run (default --clobber) leaves no FASTA beside an older AGP
+                cli_runs.run_pretext_to_asm(cr, out_name="out.agp")
+                old = sorted(cr["dir"].glob("out.*.agp"))
+                for p in old:
+                    lines = p.read_text().splitlines(keepends=True)
+                    p.write_text("".join(lines[: max(1, len(lines) // 2)]))
+                    t_old = p.stat().st_mtime - 3600
+                    os.utime(p, (t_old, t_old))
+                for p in cr["dir"].glob("out.*.fa"):
+                    p.unlink()
+                with patched_buffer(bs):
+                    res = cli_runs.run_pretext_to_asm(cr, out_name="out.fa")
+                if res["exit_code"] != 0:
+                    ctx.violation("rerun-over-older-agp-files-failed", f"exit {res['exit_code']}: {res.get('stderr', '')[-300:]}", cli_runs.case_of(cr))
+                    continue
+                ctx.count("cli:rerun-over-older-agp-files")
             for p in sorted(cr["dir"].glob("out.*.agp")):
                 txt = p.read_text()
                 lengths = None
@@ -275,7 +293,11 @@ def run_cli(shard, ctx, origin_ref):
                 if fa.exists():
                     lengths = {n: len(seq) for n, seq, _ in fasta_ref.split_records(fa.read_bytes())}
                     ctx.count("cli:agp-with-fasta")
-                probs, _ = agp_ref.validate(txt, lengths)
+                probs, ends_ = agp_ref.validate(txt, lengths)
+                if lengths is not None and set(ends_) != set(lengths):
+                    # every record of the FASTA is an object of the AGP written with it (and the other way round)
+                    odd = sorted(set(ends_) ^ set(lengths))[:5]
+                    probs = [*probs, ("objects-differ-from-fasta-records", f"objects and records differ: {odd}")]
                 ctx.count("cli:agp-files")
                 for sig, msg in probs[:2]:
                     ctx.violation(f"written-file:{sig}", f"{p.name}: {msg}\n{txt[:500]}", cli_runs.case_of(cr))
@@ -318,6 +340,7 @@ def plan(tier, seed):
 
 def gates(c, tier):
     need = {
+        "cli:rerun-over-older-agp-files": 5,
         "agp-valid": 4000,
         "agp-valid:with-gaps": 2000,
         "remap:pv:agp-texts": 500,
